@@ -238,3 +238,43 @@ Proof.
   intros Hv Hw E. pose proof (one_hot_by_value n v v Hv) as A. rewrite E, (one_hot_by_value n w v Hv) in A.
   rewrite Nat.eqb_refl in A. destruct (Nat.eqb v w) eqn:Q; [apply Nat.eqb_eq in Q; exact Q | discriminate A].
 Qed.
+
+(* ------------------------------------------------------------------ MultiDiscrete one-hot concatenation *)
+Lemma onehot_length n v : length (onehot n v) = n.
+Proof. apply one_hot_from_length. Qed.
+
+(* the block of dimension 0 comes first and is the one-hot of its value; the blocks of the other dimensions follow, shifted by n *)
+Theorem onehot_concat_head n ns v vs j : (j < n)%nat ->
+  nth j (onehot_concat (n :: ns) (v :: vs)) 0 = if Nat.eqb j v then 1 else 0.
+Proof. intros H. cbn [onehot_concat]. rewrite app_nth1 by (rewrite onehot_length; exact H). apply one_hot_by_value. exact H. Qed.
+
+Theorem onehot_concat_tail n ns v vs j :
+  nth (n + j) (onehot_concat (n :: ns) (v :: vs)) 0 = nth j (onehot_concat ns vs) 0.
+Proof.
+  cbn [onehot_concat]. rewrite app_nth2 by (rewrite onehot_length; lia). rewrite onehot_length.
+  replace (n + j - n)%nat with j by lia. reflexivity.
+Qed.
+
+Theorem onehot_concat_length : forall nvec vals, length nvec = length vals ->
+  length (onehot_concat nvec vals) = fold_right Nat.add 0%nat nvec.
+Proof.
+  induction nvec as [|n ns IH]; intros [|v vs] H; try discriminate H; [reflexivity|].
+  cbn [onehot_concat fold_right]. rewrite app_length, onehot_length, IH by (cbn in H; lia). reflexivity.
+Qed.
+
+(* ------------------------------------------------------------------ value returned for a Box coordinate *)
+Theorem predict_value_in_bounds squash lo hi x :
+  (lo <= hi -> (squash = true -> -1 <= x <= 1) -> lo <= predict_value squash lo hi x <= hi)%Q.
+Proof.
+  intros H Hx. unfold predict_value. destruct squash.
+  - apply unscale_in_bounds; auto.
+  - apply clip_in_bounds. exact H.
+Qed.
+
+Lemma frag_predict_value squash lo hi x :
+  (predict_value squash lo hi x == if predict_squash_guard squash then predict_unscale lo hi x else predict_clip x lo hi)%Q.
+Proof.
+  unfold predict_value, predict_squash_guard. destruct squash.
+  - symmetry. apply frag_predict_values.
+  - reflexivity.
+Qed.
